@@ -25,6 +25,8 @@ RULE = ("writer: schedules of 4-40 ops over {Save v, Shutdown, Crash, IoError, T
         "optional pre-existing file and left-over temp file; payloads cover the YAML scalar/collection types. "
         "non-trivial = at least one save reached the temp-file write and (a save, shutdown, crash or error happened "
         "while the thread was between clear() and the end of the rate-limit sleep). "
+        "fsave: 2-11 direct FileManager.save calls on two files through the real ruamel dumper: good / unrepresentable value / "
+        "OSError in the k-th write(); non-trivial = a good save follows a failed one. "
         "vars: 3-14 ops set/configure/remove/advance on real MachineVariables then reboot at now+dt; "
         "non-trivial = at least one persisted variable with an expiry on either side of the reboot time")
 TRUSTED_BASE = [
@@ -35,7 +37,8 @@ TRUSTED_BASE = [
     "after every op",
     "the lock-step shims (time.sleep, threading.Event, copy.deepcopy, _thread.start_new_thread as seen by "
     "mpf.core.data_manager; os.replace as seen by mpf.core.file_manager; open() as seen by "
-    "mpf.file_interfaces.yaml_interface, which buffers ruamel's writes and emits them in two chunks)",
+    "mpf.file_interfaces.yaml_interface, which buffers ruamel's writes and emits them in two chunks; the first hand-over "
+    "of a write is inside the real dump()); suite fsave uses the real yaml layer with a pass-through file object",
     "CPython file I/O, os.replace atomicity (POSIX rename), ruamel.yaml dump/load (round trip checked by the oracle)",
 ]
 ASSUMPTIONS = [
@@ -195,16 +198,22 @@ def _replace(src, dst):
 
 
 class ChunkedFile:
-    """what YamlInterface.save gets from open(temp, 'w'): the file is created/truncated at open; ruamel's writes are
-    collected and emitted as two flushed chunks with a hand-over point before each."""
+    """what YamlInterface.save gets from open(temp, 'w'): the file is created/truncated at open.  The hand-over "w1"
+    happens at ruamel's FIRST write() call, i.e. inside the real dump(): an injected fault there propagates through the
+    real dumper (this is what wedged the shared YAML() instance before fixes/C15-yaml-dumper-per-save.patch).  The text
+    is collected and emitted as two flushed chunks, with the hand-over "w2" between them."""
 
     def __init__(self, c, filename, mode, **kw):
         self.c = c
         c.hand_over("open")
         self.f = open(filename, mode, **kw)
         self.buf = []
+        self.started = False
 
     def write(self, s):
+        if not self.started:
+            self.started = True
+            self.c.hand_over("w1")
         self.buf.append(s)
         return len(s)
 
@@ -222,7 +231,8 @@ class ChunkedFile:
             if et is None:
                 data = "".join(self.buf)
                 k = len(data) // 2
-                self.c.hand_over("w1")
+                if not self.started:
+                    self.c.hand_over("w1")
                 self.f.write(data[:k])
                 self.f.flush()
                 self.c.hand_over("w2")
@@ -233,10 +243,47 @@ class ChunkedFile:
         return False
 
 
+class FaultyFile:
+    """suite fsave: the real file object, unbuffered pass-through, whose k-th write() raises OSError"""
+
+    def __init__(self, real, k, info):
+        self.f = real
+        self.k = k
+        self.n = 0
+        self.info = info
+
+    def write(self, s):
+        self.n += 1
+        if self.n == self.k:
+            self.info["fired"] = True
+            self.info["before"] = self.n - 1
+            raise OSError(28, "No space left on device (injected)")
+        r = self.f.write(s)
+        self.f.flush()
+        return r
+
+    def __getattr__(self, name):
+        return getattr(self.f, name)
+
+    def __enter__(self):
+        return self
+
+    def __exit__(self, et, ev, tb):
+        self.f.close()
+        return False
+
+
+FS_FAULT = None      # suite fsave: {"k": n} -> the next open(..., 'w') by the yaml interface returns a FaultyFile
+
+
 def _open(filename, mode="r", *a, **kw):
     c = CUR
     if c is not None and c.in_writer() and "w" in mode:
         return ChunkedFile(c, filename, mode, *a, **kw)
+    global FS_FAULT
+    if c is None and FS_FAULT is not None and "w" in mode:
+        info, FS_FAULT = FS_FAULT, None
+        return FaultyFile(open(filename, mode, *a, **kw), info["k"], info)
     return open(filename, mode, *a, **kw)
 
 
@@ -809,6 +856,167 @@ def describe_vars(case):
 
 HDR_VARS = "From C15 Require Import Model.\nDefinition run := vars_run.\nDefinition out_eqb := zss_eqb.\n"
 
+# ------------------------------------------------------------------------------------------------
+# suite "fsave": FileManager.save called directly with the REAL YamlInterface and the REAL ruamel dumper (nothing of the
+# yaml layer is intercepted): faults are injected in the file object's write() and by values ruamel cannot represent,
+# followed by good saves, on two files (two data managers share FileManager and the yaml interface).
+class Unrepresentable:
+    pass
+
+
+def gen_fsave(rng, tier, i):
+    ops = []
+    v = 0
+    for _ in range(rng.randint(2, 10)):
+        v += 1
+        r = rng.random()
+        f = rng.choice([0, 0, 1])
+        if r < 0.5:
+            ops.append(["good", f, v])
+        elif r < 0.75:
+            ops.append(["bad", f, v, rng.choice(["top_first", "top_last", "nested"])])
+        else:
+            ops.append(["wfault", f, v, rng.choice([1, 1, 2, 3, 5, 9])])
+    if ops[-1][0] != "good" or rng.random() < 0.5:
+        ops.append(["good", rng.choice([0, 1]), v + 1])
+    return {"ops": ops, "pseed": rng.randrange(10 ** 6)}
+
+
+def run_fsave(case):
+    global FS_FAULT, CUR
+    install_shims()
+    from mpf.core.file_manager import FileManager
+    CUR = None
+    FileManager.is_busy = False
+    if not FileManager.initialized:
+        FileManager.init()
+    d = tempfile.mkdtemp(prefix="verif_c15f_")
+    names = [os.path.join(d, "a.yaml"), os.path.join(d, "b.yaml")]
+    temps = [os.path.join(d, "_a.yaml"), os.path.join(d, "_b.yaml")]
+    versions = {}
+
+    def classify(path):
+        if not os.path.exists(path):
+            return None
+        if os.path.getsize(path) == 0:
+            return ("empty",)
+        try:
+            c = canon(FileManager.load(path, halt_on_error=True))
+        except Exception:
+            return ("torn",)
+        for vv, t in versions.items():
+            if t == c:
+                return ("ver", vv)
+        return ("torn",)
+
+    def codes():
+        out = []
+        for fn, tn in zip(names, temps):
+            f = classify(fn)
+            t = classify(tn)
+            out.append(0 if f is None else f[1] if f[0] == "ver" else -1 if f[0] == "torn" else -2)
+            out += [0, 0] if t is None else [1, 0] if t[0] == "empty" else [3, t[1]] if t[0] == "ver" else [2, 0]
+        return out
+    rows, infos = [], []
+    try:
+        for o in case["ops"]:
+            p = payload(case["pseed"], o[2])
+            info = {"fired": False}
+            if o[0] == "good":
+                versions[o[2]] = canon(p)
+            elif o[0] == "bad":
+                if o[3] == "top_first":
+                    p = dict([("!bad", Unrepresentable())] + list(p.items()))
+                elif o[3] == "top_last":
+                    p["zzz_bad"] = Unrepresentable()
+                else:
+                    p["nest"] = [1, {"deep": [Unrepresentable()]}]
+            else:
+                versions[o[2]] = canon(p)
+                FS_FAULT = info
+                info["k"] = o[3]
+            exc = None
+            try:
+                FileManager.save(names[o[1]], p)
+            except Exception as e:       # noqa
+                exc = type(e).__name__ + ": " + str(e)[:80]
+            FS_FAULT = None
+            code = 0 if exc is None else 1 if exc.startswith("RepresenterError") else 2 if exc.startswith("OSError") else 9
+            rows.append([int(exc is None), code, int(bool(FileManager.is_busy))] + codes())
+            infos.append({"exc": exc, "fired": info.get("fired", False)})
+        return {"rows": rows, "infos": infos}
+    finally:
+        FS_FAULT = None
+        FileManager.is_busy = False
+        shutil.rmtree(d, ignore_errors=True)
+
+
+def coq_fsave(case, out):
+    terms = []
+    for o, row, info in zip(case["ops"], out["rows"], out["infos"]):
+        tstate = row[4 + 3 * o[1]]      # row = [ok, exc, busy, f0, t0state, t0ver, f1, t1state, t1ver]
+        if o[0] == "good" or (o[0] == "wfault" and not info["fired"]):
+            terms.append("(FGood %d %d)" % (o[1], o[2]))
+        else:
+            # where the dump stopped (temp left empty or partial) is ruamel's business: taken from the observation;
+            # anything else (e.g. a complete temp file) is mapped to "partial" and shows up as a disagreement
+            terms.append("(FFail %d %d %d %d)" % (o[1], o[2], 1 if o[0] == "bad" else 2, 1 if tstate == 1 else 2))
+    return "((%s, %s), %s)" % (CFG, coqlist(terms), coqlist(zlist(r) for r in out["rows"]))
+
+
+def oracle_fsave(case, out):
+    fails = []
+    saved = set()
+    failed_before = False
+    for idx, (o, row, info) in enumerate(zip(case["ops"], out["rows"], out["infos"])):
+        good = o[0] == "good" or (o[0] == "wfault" and not info["fired"])
+        if good:
+            saved.add(o[2])
+        for col in (3, 6):
+            if row[col] != 0 and row[col] not in saved:
+                fails.append({"sig": "torn-file", "what": "op %d: a data file is not a complete saved version" % idx})
+                return fails
+        if row[2]:
+            fails.append({"sig": "busy-stuck", "what": "op %d: FileManager.is_busy left True" % idx})
+            return fails
+        if good and (not row[0] or row[3 + 3 * o[1]] != o[2]):
+            if failed_before:
+                fails.append({"sig": "later-save-fails-after-failed-save",
+                              "what": "op %d: a good save after an earlier failed save is not on disk (%s)" %
+                                      (idx, info["exc"])})
+            else:
+                fails.append({"sig": "good-save-failed", "what": "op %d: save failed: %s" % (idx, info["exc"])})
+            return fails
+        if not good:
+            failed_before = True
+            if row[0]:
+                fails.append({"sig": "fault-swallowed", "what": "op %d: the save did not raise" % idx})
+                return fails
+    return fails
+
+
+def shrink_fsave(case):
+    ops = case["ops"]
+    for i in range(len(ops)):
+        yield dict(case, ops=ops[:i] + ops[i + 1:])
+
+
+def nontrivial_fsave(case, out):
+    seen_fail = False
+    for o, info in zip(case["ops"], out["infos"]):
+        if o[0] == "bad" or (o[0] == "wfault" and info["fired"]):
+            seen_fail = True
+        elif seen_fail:
+            return True
+    return False
+
+
+def describe_fsave(case):
+    return " ".join(sorted(set(o[0] for o in case["ops"])))
+
+
+HDR_FSAVE = "From C15 Require Import Model.\nDefinition run := fsave_run.\nDefinition out_eqb := zss_eqb.\n"
+
 HDR_WRITER = "From C15 Require Import Model.\nDefinition run := writer_run.\nDefinition out_eqb := zss_eqb.\n"
 
 SUITES = [
@@ -816,6 +1024,8 @@ SUITES = [
           {"quick": 1600, "thorough": 40000}, describe=describe_writer, shard=200),
     Suite("vars", gen_vars, run_vars, HDR_VARS, coq_vars, oracle_vars, shrink_vars, nontrivial_vars,
           {"quick": 600, "thorough": 15000}, describe=describe_vars, shard=200),
+    Suite("fsave", gen_fsave, run_fsave, HDR_FSAVE, coq_fsave, oracle_fsave, shrink_fsave, nontrivial_fsave,
+          {"quick": 500, "thorough": 10000}, describe=describe_fsave, shard=250),
 ]
 
 LEVEL_TEXT = ("Machine-checked proof (Coq) over a program-counter model of DataManager._writing_thread + FileManager.save + the "
